@@ -231,8 +231,22 @@ func (g *lexGen) genRealText() string {
 		if s[0] == '0' {
 			s = "1" + s
 		}
+		switch g.draw(4, "justbeyond") {
+		case 0:
+			// 19 digits, just beyond the largest integer
+			s = []string{"9223372036854775808", "9223372036854775809", "9223372036854775810", "9223372036854775818", "9999999999999999999", "9300000000000000000", "9223372036854775807000"}[g.draw(7, "beyond")]
+		case 1:
+			s = "9" + string(rune('3'+g.draw(7, "beyond2"))) + digits("beyond", 17, 17)
+			if g.draw(3, "beyondzeros") == 0 {
+				s = "000"[:1+g.draw(3, "nzeros")] + s
+			}
+		}
 		g.feat["number-form"] = true
-		return []string{"", "-", "+"}[g.draw(3, "sign")] + s
+		sign := []string{"", "-", "+"}[g.draw(3, "sign")]
+		if sign == "-" && strings.TrimLeft(s, "0") == "9223372036854775808" {
+			sign = "" // -2^63 is the smallest integer, not a real
+		}
+		return sign + s
 	default:
 		s = digits("ip", 1, 17) + "." + digits("fp", 0, 17)
 	}
